@@ -159,7 +159,7 @@ Definition usage_complete (rows : list urow) : bool :=
 
 (* ------------------------------------------------------------------ names *)
 Definition names_ok (n : names) : bool :=
-  forallb (fun d => mem d (nm_dir n)) (doc_names (nm_plat n))
+  forallb (fun d => mem d (nm_all n)) (doc_names (nm_plat n))
   && forallb (fun d => mem d (nm_methods n)) (doc_methods (nm_plat n))
   && forallb (fun a => mem a (nm_dir n)) (nm_all n).           (* everything in __all__ resolves *)
 Definition names_complete (l : list names) : bool :=
